@@ -80,7 +80,8 @@ def run_one(m, repo=None):
             out = os.path.join(tmp, "facts-%s.json" % cname)
             ok, log = extract.replay(cname, tmp, out)
             if not ok:
-                res["status"] = "does-not-compile"
+                res["status"] = "killed" if m.get("rustc_rejects") else "does-not-compile"
+                res["rules"] = ["rustc"] if m.get("rustc_rejects") else []
                 res["detail"] = log[-1500:]
                 return res
             cfgs.append(core.Cfg(cname, Facts(out)))
